@@ -571,7 +571,12 @@ func (ev *evalCtx) call(e *Expr) Term {
 		return Term{app("select", ev.tr.get(ev.cur, "C:"+vs, "(Array Ref "+vs+")"), g), vs, obj.Type()}
 	case "bitsof":
 		// bitsof("I"): bit width of an integer type parameter
-		return Term{q("bits:" + ev.strArg(e.Args[0])), "Int", nil}
+		bn := "bits:" + ev.strArg(e.Args[0])
+		if !c.declared[q(bn)] {
+			// a callee's contract speaks about its own type parameter: an unconstrained width here
+			c.declConst(bn, "Int")
+		}
+		return Term{q(bn), "Int", nil}
 	case "atloop":
 		// atloop(N, e): e evaluated in the state at the header of enclosing loop N (this iteration of it)
 		if e.Args[0].Op != "int" {
